@@ -66,7 +66,7 @@ func gen(r *sim.Rng, tier string) *sim.Case {
 			nv = r.Range(10, 13)
 		}
 		p["nv"] = nv
-		p["vt"] = r.N(3) // vertex type: int, string, struct
+		p["vt"] = r.N(5) // vertex type: int, string, struct, labels with spaces, struct with a non-unique String()
 		kind := r.Pick(4, 2, 1, 1)
 		p["gkind"] = kind
 		dens := r.Range(5, 95)
@@ -383,9 +383,36 @@ func cliques(c *sim.Case, out *sim.WorkerOut, dg *engc.Digest) *sim.Violation {
 			}
 			return k.A
 		})
+	case 3:
+		// human labels: some contain spaces, so that different vertex sets can print alike
+		return cliquesT(c, out, dg, func(i int) string { return labels[i%len(labels)] }, func(s string) int {
+			for i, l := range labels {
+				if l == s {
+					return i
+				}
+			}
+			return -1
+		})
+	case 4:
+		// vertices with a String method whose result is not unique (two vertices share a name)
+		return cliquesT(c, out, dg, func(i int) named { return named{i, "n" + strconv.Itoa(i/2)} }, func(k named) int {
+			if k.Name != "n"+strconv.Itoa(k.ID/2) {
+				return -1
+			}
+			return k.ID
+		})
 	}
 	return cliquesT(c, out, dg, func(i int) int { return i }, func(i int) int { return i })
 }
+
+var labels = []string{"a", "b", "a b", "c", "b c", "a b c", "d", "c d", "e", "d e", "f", "e f", "g"}
+
+type named struct {
+	ID   int
+	Name string
+}
+
+func (n named) String() string { return n.Name }
 
 func cliquesT[T comparable](c *sim.Case, out *sim.WorkerOut, dg *engc.Digest, mk func(int) T, unmk func(T) int) *sim.Violation {
 	nv := c.P("nv")
